@@ -173,3 +173,32 @@ Proof.
   - unfold ex_ops_a, ex_ops_b. repeat first [ apply orel_nil | apply orel_both; [first [exact Logic.I | (vm_compute; auto 20)]|] | (apply orel_left; [reflexivity|]) | (apply orel_right; [reflexivity|]) ].
   - vm_compute. eexists _, _, _, _. repeat split. discriminate.
 Qed.
+
+(* ------------------------------------------------------------------------------------------------------------------
+   The same at the level of the whole daemon, frame form (Proofs/DaemonDevFrame.v over Model/Daemon.v): one device's
+   share of a pass - whatever the device does - produces callbacks only for clients that have an action queued on THAT
+   device, so inside dev_post_poll the record of every other client is left exactly as it was by that device's step.
+   (The other devices are not touched by construction of the loop; result lists: C11_result_list_writes; the shared poll
+   time-out: C05_tmo_independent / C05_pass_tmo_is_min.) *)
+From PM Require Import Model.Client Model.Daemon Proofs.DaemonLedger Proofs.DaemonFrame Proofs.DaemonDevFrame.
+From PM Require Proofs.DeviceDeadlineEx.
+Theorem C05_callbacks_only_own_clients : forall rmatch compress sc now d store tmo pin d' store' tmo' evs id,
+  DInvG compress d -> tmo_pos tmo -> 0 <= dv_retry_count d ->
+  post_poll_one rmatch compress sc now d store tmo pin = Ok (d', store', tmo', evs) ->
+  ~ In id (queued d) -> existsb (ev_for id) evs = false.
+Proof. exact step_events_ids. Qed.
+Print Assumptions C05_callbacks_only_own_clients.
+Theorem C05_daemon_device_frame : forall ranged_sorted rmatch compress sc now st i d pin tmo d' store' tmo' evs st1 st2 p x,
+  nth_error (dm_devs st) i = Some d -> DInvG compress d -> tmo_pos tmo -> 0 <= dv_retry_count d ->
+  post_poll_one rmatch compress sc now d (dm_store st) tmo pin = Ok (d', store', tmo', evs) ->
+  dm_clients st1 = dm_clients st -> route_all ranged_sorted st1 evs = Ok st2 ->
+  nth_error (dm_clients st) p = Some x -> ~ In (cid x) (queued d) ->
+  nth_error (dm_clients st2) p = Some x.
+Proof. exact dev_step_client_frame. Qed.
+Print Assumptions C05_daemon_device_frame.
+(* non-vacuity: the silent device of the deadline examples, at the pass that fails its queue: the callbacks are for client 7
+   (the only one with an action queued there) and for nobody else *)
+Example C05_daemon_frame_nonvacuous :
+  exists d' st' t' evs, post_poll_one DeviceDeadlineEx.rm DeviceDeadlineEx.cp false 6000000 DeviceDeadlineEx.d5 [] None DeviceDeadlineEx.silent = Ok (d', st', t', evs) /\
+    queued DeviceDeadlineEx.d5 = [7] /\ existsb (ev_for 7) evs = true /\ existsb (ev_for 8) evs = false.
+Proof. eexists _, _, _, _. vm_compute. repeat split. Qed.
